@@ -142,14 +142,22 @@ class Eraser {
     const o = Object.assign({}, n)
     const saved = this.inline
     this.inline = new Map()
-    o.stmts = stmts.map((s) => { this.inline.clear(); return this.er(s, env) })
+    // a block with its own injected `let` shadows the temporaries of whatever expression encloses it (a class or
+    // function expression inside an instrumented operation): names declared here never resolve outwards
+    const declared = new Set()
+    n.stmts.forEach((s) => { if (this.isInjectedLet(s)) s.declarations.forEach((d) => declared.add(d.id.value)) })
+    const inner = declared.size ? { map: new Map(), parent: env, declares: declared } : env
+    o.stmts = stmts.map((s) => { this.inline.clear(); return this.er(s, inner) })
     this.inline = saved
     return o
   }
 
   // ---- temporaries ---------------------------------------------------------------------------
   lookup (name, env) {
-    for (let e = env; e; e = e.parent) if (e.map.has(name)) return e.map.get(name)
+    for (let e = env; e; e = e.parent) {
+      if (e.map.has(name)) return e.map.get(name)
+      if (e.declares && e.declares.has(name)) break
+    }
     return this.inline.get(name) || null
   }
 
@@ -292,9 +300,24 @@ class Eraser {
         const arr = unparen(cargs[1].expression)
         if (arr.type === 'ArrayExpression' && !cargs[1].spread) for (const el of arr.elements) { if (el) expect.push(el) } else expect.push(cargs[1])
       }
-      for (let i = 2; i < cargs.length; i++) expect.push(cargs[i])
     }
-    this.checkRest(rec, expect)
+    // apply(R, [A...], surplus...): the surplus arguments are evaluated but are NOT arguments of the method. The
+    // implementation hands them to the hook as if they were (whole, or element by element when they are array
+    // literals); that shape is reported under its own signature
+    let surplusShape = false
+    if (via === 'apply' && cargs.length > 2) {
+      const loose = expect.slice()
+      for (let i = 2; i < cargs.length; i++) {
+        const e = unparen(cargs[i].expression)
+        if (e.type === 'ArrayExpression' && !cargs[i].spread) for (const el of e.elements) { if (el) loose.push(el) } else loose.push(cargs[i])
+      }
+      const got = rec.rest
+      surplusShape = got.length === loose.length && got.length > expect.length && got.every((g, i) => !!g.spread === !!loose[i].spread && simpleEq(unparen(g.expression), unparen(loose[i].expression)))
+    }
+    if (surplusShape) {
+      rec.restOk = false
+      this.problem('hook-operands', 'method:apply-surplus-arguments', `hook ${rec.name} receives (${rec.rest.map((a) => (a.spread ? '...' : '') + summ(a.expression)).join(', ')}): the arguments of apply() after the argument array are not arguments of the method (it is invoked with (${expect.slice(2).map((a) => summ(a.expression)).join(', ')}))`)
+    } else this.checkRest(rec, expect)
     const fraw = unparen(fb.raw)
     const R = cargs.length ? cargs[0] : null
     const sameReceiver = R && !R.spread && fraw.type === 'MemberExpression' && fraw.property.type === 'Identifier' && (
